@@ -244,7 +244,24 @@ func cmdReplay(path string) int {
 		return 2
 	}
 	defer m.Remove()
+	if rr.Tier != "" {
+		currentTier = rr.Tier
+	}
 	rp := newReplayer(m, rr.Property)
+	// harnesses replayed in the engine (scripted environment): load the package like a check does
+	if hs, err := findHarnesses(rr.Property); err == nil {
+		for _, h := range hs {
+			if h.fn == rr.Harness && (h.model || h.modelFallback) {
+				ld, err := m.LoadPackages([]string{"./" + h.dir})
+				if err != nil {
+					fmt.Fprintln(os.Stderr, "load:", err)
+					return 2
+				}
+				rp.modelReplay = makeModelReplay(ld, map[string]string{h.dir: ld.pkgs[0].PkgPath}, hs)
+				break
+			}
+		}
+	}
 	abs, _ := filepath.Abs(path)
 	ok, out := rp.run(&rr, abs)
 	fmt.Print(out)
